@@ -160,6 +160,10 @@ def dress(struct, date, rnd, pid_base=0, hh_base=0, pid_map=None, profile=None):
         for k, v in profile.items():
             d[k] = v(i, r, d, rnd) if callable(v) else v
         P.append(d)
+    # inputs at tax-unit level must be constant within the tax unit (jointly assessed spouses)
+    for i, r in enumerate(struct, start=1):
+        if r["spouse"] and r["gv"] and r["spouse"] < i:
+            P[i - 1]["elterngeld_zu_verst_eink_vorjahr_y_sn"] = P[r["spouse"] - 1]["elterngeld_zu_verst_eink_vorjahr_y_sn"]
     # derived consistency: alleinerz, ges_pflegev_hat_kinder
     kids_of = {}
     for i, r in enumerate(struct, start=1):
